@@ -24,11 +24,12 @@ BuildDevs(e) ==
           IfDev(e.clean_g.exists /\ e.grammar_out.digest = e.clean_g.digest, "C18", "generated parser # clean build", <<e.grammar_out, e.clean_g>>)
           \cup (IF e.which = "both" THEN IfDev(e.clean_l.exists /\ e.lexer_out.digest = e.clean_l.digest, "C18", "generated lexer # clean build", <<e.lexer_out, e.clean_l>>) ELSE {})
         ELSE {})
-  \* the same observation as C13 / C14 / C15 see it: the module a successful build leaves in place is
+  \* the same observation as C01 / C13 / C14 / C15 see it (C01: the parser that is generated recognises
+  \* the CURRENT grammar's language, not that of an earlier version): the module a successful build leaves in place is
   \* THE module of these sources and settings - the one a build into an empty directory generates,
   \* whose behaviour (C13), embedded tables (C14) and bytes (C15) those properties are about - and
   \* not a function of what an earlier build left behind
-  \cup (IF e.ok /\ last'.ok /\ Prop \in {"C13", "C14", "C15"} THEN
+  \cup (IF e.ok /\ last'.ok /\ Prop \in {"C01", "C13", "C14", "C15"} THEN
           IfDev(e.clean_g.exists /\ e.grammar_out.digest = e.clean_g.digest, Prop,
                 "same sources and settings, but the module left in place is not the one a build into an empty directory generates (it depends on an earlier build)", <<e.grammar_out, e.clean_g>>)
           \cup (IF e.which = "both" THEN IfDev(e.clean_l.exists /\ e.lexer_out.digest = e.clean_l.digest, Prop,
